@@ -100,12 +100,6 @@ def _main(args: argparse.Namespace) -> int:
         return 2
     wall = real_perf() - t0
 
-    if res.sanity_errors:
-        for s in res.sanity_errors:
-            print(f"HARNESS-ERROR property={pid} vacuity/sanity: {s}")
-        report.write_evidence(res, args.tier, args.seed, wall, 0, 0)
-        return 2
-
     findings = report.load_findings()
     new, known = [], {}
     for v in res.violations:
@@ -114,6 +108,14 @@ def _main(args: argparse.Namespace) -> int:
             new.append(v)
         else:
             known.setdefault(json.dumps(f, sort_keys=True), (f, v))
+    if res.sanity_errors:
+        # a program that could not be explored (crashed / spun) makes the run a harness error - unless other programs
+        # produced replay-verified violations: those stand on their own and are reported
+        for s in res.sanity_errors:
+            print(f"HARNESS-ERROR property={pid} vacuity/sanity: {s}")
+        if not new:
+            report.write_evidence(res, args.tier, args.seed, wall, 0, 0)
+            return 2
     for _, (f, v) in sorted(known.items()):
         print(f"KNOWN-FINDING: property={pid} {f.get('what', v.detail)}")
     for v in new:
